@@ -1419,7 +1419,10 @@ class UnitDatabase(Singleton):
         ratio = self.Convert(quantity_type, from_unit, to_unit, 1.0) - self.Convert(
             quantity_type, from_unit, to_unit, 0.0
         )
-        return value * ratio**exp
+        factor = ratio**exp
+        if isinstance(value, (list, tuple)):
+            return type(value)(v * factor for v in value)
+        return value * factor
 
     def _DoOperationResultingInNewQuantity(
         self,
